@@ -21,7 +21,9 @@
 EXTENDS Integers, Sequences
 
 \* ordered classes of f64 values (each stands for the listed representative)
-Order == <<"-inf", "neg", "-0", "+0", "tiny", "mid", "day", "overday", "huge", "+inf">>
+\* "sub" is the smallest subnormal (5e-324), "subhi" the largest, "minnorm" the smallest normal f64:
+\* positive numbers, so a maximum of that size is a set maximum
+Order == <<"-inf", "neg", "-0", "+0", "sub", "subhi", "minnorm", "tiny", "mid", "day", "overday", "huge", "+inf">>
 Classes == {Order[i] : i \in 1..Len(Order)} \cup {"NaN"}
 Rk(c) == CHOOSE i \in 1..Len(Order) : Order[i] = c
 IsNaN(c) == c = "NaN"
@@ -43,7 +45,7 @@ Sample(x, max) ==
 \*   "zero" 0, "small" 1..999, "dayus" 86_400_000_000, "big" other values below 2^64, "umax" u64::MAX
 AsU64(c, round) ==
   CASE c \in {"-inf", "neg", "-0", "+0", "NaN"} -> "zero"
-    [] c = "tiny" -> "zero"                      \* 0.3: rounds and truncates to 0
+    [] c \in {"sub", "subhi", "minnorm", "tiny"} -> "zero"   \* below 0.5: rounds and truncates to 0
     [] c = "mid" -> "small"
     [] c = "day" -> "dayus"
     [] c = "overday" -> "big"
